@@ -20,7 +20,10 @@ LEVEL_TEXT = ("Proved for all n and all vectors (about the executable model inst
               "[0,1] (C20_mw_range), is 0 iff all one-qubit marginals are pure (C20_mw_zero_iff_pure) iff slices proportional "
               "(C20_pure_iff_proportional) iff the vector is a product state (C20_mw_product_zero, C20_mw_zero_iff_product, both directions, "
               "no normalisation needed); invariance under any one-qubit unitary on any qubit (C20_mw_local_unitary); relabelling only in "
-              "slice-wise form (C20_mw_relabel_partial: the construction of the slice reindexing from a bit permutation is missing); "
+              "slice-wise form (C20_mw_relabel_partial: the construction of the slice reindexing from a bit permutation is missing) - "
+              "superseded by the FULL C20_mw_relabel / C20_mw_relabel_fin: for every n>=1, every permutation sigma of the qubits and every "
+              "array, the array read through the bit permutation permIdx (bit k -> bit sigma k) has the same Meyer-Wallach value (the slice "
+              "bijections are constructed from sigma); "
               "geometric measure: everything the property says about the returned triple given the Tucker kernel's specification "
               "(C20_geo_post: argmin over restarts, range by Cauchy-Schwarz, product state = phase * kron(factors), normalised, fidelity "
               "1-measure). Tied: _get_iota exhaustively n<=10, _to_qubits, slices/entries/value on dyadic Gaussian-rational vectors "
@@ -36,7 +39,7 @@ THEOREMS = [
     "Qclib.C20_iota_src", "Qclib.C20_iota", "Qclib.C20_iota_bits", "Qclib.C20_lagrange",
     "Qclib.C20_mw", "Qclib.C20_mw_range", "Qclib.C20_mw_zero_iff_pure", "Qclib.C20_pure_iff_proportional",
     "Qclib.C20_mw_product_zero", "Qclib.C20_mw_zero_iff_product", "Qclib.C20_mw_local_unitary",
-    "Qclib.C20_mw_relabel_partial", "Qclib.C20_geo_post",
+    "Qclib.C20_mw_relabel_partial", "Qclib.C20_geo_post", "Qclib.C20_mw_relabel", "Qclib.C20_mw_relabel_fin",
 ]
 TRUSTED = [
     "tensorly.decomposition.tucker (rank (1,..,1), init='random'): factors have unit norm and core = <(x)_k f_k, psi> "
